@@ -31,7 +31,7 @@ func enum(tier string) [][]gen.Shape {
 	return enumQ
 }
 
-var entries = []string{"reader", "reader-discard", "reader-nohandler", "reader-lazyhandler", "reader-ctlhandler", "nextreader", "readmessage", "readdata", "readtext", "readbinary"}
+var entries = []string{"reader", "reader-discard", "reader-nohandler", "reader-lazyhandler", "reader-ctlhandler", "reader-maxframe", "nextreader", "readmessage", "readdata", "readtext", "readbinary"}
 var bufs = []int{1, 2, 7, 64, 4096, 65536}
 
 // checkStream runs one frame sequence through every entry point under several
@@ -88,6 +88,15 @@ func checkStream(c *mon.C, shapes []gen.Shape, side ref.Side, nplans int) bool {
 			o.Entry, o.Intermediate = "reader", 1
 		case "reader-ctlhandler":
 			o.Entry, o.Intermediate, o.CheckUTF8 = "reader", 3, true
+		case "reader-maxframe":
+			// MaxFrameSize equal to the largest frame of the stream (or one more): nothing may be refused
+			o.Entry = "reader"
+			for _, sh := range shapes {
+				if int64(sh.Len) > o.MaxFrameSize {
+					o.MaxFrameSize = int64(sh.Len)
+				}
+			}
+			o.MaxFrameSize += int64(c.I % 2)
 		}
 		stream, _, marks := gen.Encode(frames)
 		want := drive.Expect(frames, o)
@@ -219,7 +228,7 @@ func main() {
 		Property: "C04",
 		Level:    "exploration",
 		Rule: "cases: every state-machine-valid complete frame sequence up to depth 3 (quick; alphabet {text,binary,cont} x fin x len{0,1,3} + {ping,pong} x len{0,2}) or depth 5 (thorough; len{0,2}), on server/client/zero side, then seeded random sequences of up to 40 frames with payloads across 125/126, 4096 and 65535/65536; " +
-			"each stream is run through 10 consumer configurations (manual Reader with full/lazy/no/ControlFrameHandler intermediate handler and with Discard, NextReader, ReadMessage, ReadData, Read*Text, Read*Binary) x 3 chunk plans x 2 caller buffer sizes and compared with the reference reassembly, clean EOF, full consumption, OnContinuation count and pong replies. " +
+			"each stream is run through 11 consumer configurations (manual Reader with full/lazy/no/ControlFrameHandler intermediate handler, with Discard, and with MaxFrameSize equal to the largest frame, NextReader, ReadMessage, ReadData, Read*Text, Read*Binary) x 3 chunk plans x 2 caller buffer sizes and compared with the reference reassembly, clean EOF, full consumption, OnContinuation count and pong replies. " +
 			"distinct = (frame-shape signature with bucketed lengths, entry, plan kind, side).",
 		Assumptions: []string{"reference reassembly ref.Reassemble and frame encoder ref.Frame.Encode are correct", "NextReader drops intermediate control frames and ReadMessage returns them before the glued message, as documented"},
 		Subs:        []mon.Sub{subEnum(), subRandom()},
